@@ -66,6 +66,15 @@ Connect(dst, src, skip, d, dist, shadow, window, blocking) ==
                            window |-> window, blocking |-> blocking])
   /\ UNCHANGED <<ndelay, ndist>>
 
+(* connect() called again for the same pair under the same input name: the only way to re-configure an edge (rex has no disconnect).  The new
+   connection REPLACES the old one - for the receiver (inputs), for the sender (outputs) and hence for everything derived from either *)
+Reconnect(c, skip, d, dist, window, blocking) ==
+  /\ c \in conns
+  /\ conns' = (conns \ {c}) \cup {[src |-> c.src, dst |-> c.dst, skip |-> skip, delay |-> d, dist |-> dist, shadow |-> c.shadow, window |-> window, blocking |-> blocking]}
+  /\ hist' = Append(hist, [op |-> "connect", dst |-> c.dst, src |-> c.src, skip |-> skip, delay |-> d, dist |-> dist, shadow |-> c.shadow,
+                           window |-> window, blocking |-> blocking])
+  /\ UNCHANGED <<ndelay, ndist>>
+
 (* dist / d = "keep" or -1 mean: argument not given *)
 SetNodeDelay(n, dist, d) ==
   /\ ndist' = IF dist = "keep" THEN ndist ELSE [ndist EXCEPT ![n] = dist]
@@ -89,6 +98,7 @@ Next ==
   /\ Len(hist) < MaxLen
   /\ \/ \E dst, src \in Nodes, skip, shadow, blocking \in BOOLEAN, d \in Delays, dist \in Dists, w \in 1..2 :
           Connect(dst, src, skip, d, dist, shadow, w, blocking)
+     \/ \E c \in conns, skip, blocking \in BOOLEAN, d \in Delays, dist \in Dists, w \in 1..2 : Reconnect(c, skip, d, dist, w, blocking)
      \/ \E n \in Nodes, dist \in Dists \cup {"keep"}, d \in Delays \cup {-1} : SetNodeDelay(n, dist, d)
      \/ \E c \in conns, dist \in Dists \cup {"keep"}, d \in Delays \cup {-1} : SetConnDelay(c, dist, d)
      \/ RoundTrip
